@@ -88,7 +88,7 @@ Definition sum_inv (c : cfg) (x : st) : Prop :=
   z x zK + sumf (f x fU) (devs c) + sumf (f x fCF) (devs c) - z x zREM - sumf (f x fM) (devs c).
 
 Definition avail_inv (c : cfg) (x : st) : Prop :=
-  sumf (f x fA) (devs c) + z x zPA + z x zQ + z x zW = z x zK.
+  sumf (f x fA) (devs c) + z x zPA + z x zQ + z x zW = z x zK + z x zXS.
 
 Definition phys_inv (c : cfg) (x : st) : Prop :=
   sumf (f x fPH) (devs c) + z x zLOOSE + z x zTR = z x zTOT.
@@ -313,7 +313,7 @@ Qed.
 Lemma ledger_conservation_l c ds pf pre m :
   NoDup (devs c) -> reach c ds pf pre m -> books_closedb c m = true ->
      sumf (f m fC) (devs c) + z m zB = z m zK
-  /\ sumf (f m fA) (devs c) + z m zPA = z m zK
+  /\ sumf (f m fA) (devs c) + z m zPA = z m zK + z m zXS
   /\ ((forall d, In d (devs c) -> blfc (f m fS d) = false) -> sumf (balls m) (devs c) + z m zB = z m zK)
   /\ ((forall d, In d (devs c) -> f m fC d = f m fPH d) -> z m zTR = 0 ->
         z m zB + (z m zTOT - z m zK) = z m zLOOSE).
@@ -555,3 +555,152 @@ Proof. vm_compute. reflexivity. Qed.
 
 Lemma booked_twice_rejected_l : c04_run (cfgX, (dsX, pfX), preX ++ twiceX) = Z.of_nat (length preX) + 4.
 Proof. vm_compute. reflexivity. Qed.
+
+(* ---------------------------------------------------------------------------------------------- *)
+(* DEFECT modelled faithfully (known finding available-balls-excess-after-unrestorable-incoming-loss):
+   lost_incoming_ball at a device that has no current eject to cancel and no available ball of its own ("Failed to
+   restore the path") books the lost ball to the playfield without taking an available ball away anywhere *)
+Lemma unrestored_booking_guard_l c x y :
+  step c x LMissingToPf = Some y -> z x zW <= 0 ->
+  isdev c (z x zILT) = true /\ f x fA (z x zILT) <= 0 /\ z y zXS = z x zXS + 1.
+Proof.
+  cbn [step]. unfold guard. intros H W.
+  destruct (1 <=? z x zW) eqn:E; [apply Z.leb_le in E; lia|].
+  match type of H with (if ?g then _ else _) = _ => destruct g eqn:G end; [|discriminate].
+  inversion H; subst y; clear H.
+  apply andb_true_iff in G as [G A]. apply andb_true_iff in G as [_ G]. apply Z.leb_le in A.
+  split; [assumption|]. split; [assumption|].
+  norm. reflexivity.
+Qed.
+
+Lemma restored_booking_keeps_xs_l c x y :
+  step c x LMissingToPf = Some y -> 1 <= z x zW -> z y zXS = z x zXS.
+Proof.
+  cbn [step]. unfold guard. intros H W.
+  destruct (1 <=? z x zW) eqn:E; [|apply Z.leb_gt in E; lia].
+  destruct (isdev c (z x zLASTF)); [|discriminate]. inversion H; subst y; clear H.
+  norm. reflexivity.
+Qed.
+
+(* nothing else changes the excess *)
+Lemma xs_only_from_unrestored_l c x l y :
+  step c x l = Some y -> z y zXS <> z x zXS -> l = LMissingToPf /\ z x zW <= 0.
+Proof.
+  intros H N.
+  destruct l; try (exfalso; apply N; clear N;
+    cbn [step] in H; unfold guard in H; split_ifs H; inversion H; subst y; clear H; norm; reflexivity).
+  split; [reflexivity|].
+  destruct (Z_le_gt_dec (z x zW) 0) as [L|G]; [assumption|].
+  exfalso. apply N. apply (restored_booking_keeps_xs_l c x y H). lia.
+Qed.
+
+Definition cfgS : cfg := [(0,4);(1,2);(2,2)].
+Definition dsS : list (list Z) := [[0;4;4;0;4];[1;0;0;0;0];[2;0;0;0;0]].
+Definition pfS : list Z := [0;0;0;4;0].
+Definition preS : list label :=
+  [LChain 0 9;
+   LState 0 2;
+   LAttempt 0 1 0;
+   LState 1 1;
+   LState 0 3;
+   LEjecting 0 1 0;
+   LPulse 0;
+   SLeave 0 0;
+   LState 0 4;
+   LExtWait 0;
+   SArrive 0 0;
+   LChain 0 9;
+   LState 0 5;
+   LState 0 3;
+   LFailed 0 1 1 1;
+   LState 0 2;
+   LAttempt 0 1 1;
+   LState 0 3;
+   LEjecting 0 1 1;
+   LPulse 0;
+   SLeave 0 1;
+   LState 0 4;
+   LExtWait 0;
+   SNop;
+   LConfirmed 0 1;
+   LSuccess 0 1;
+   LCount 0 3;
+   LState 0 3;
+   LState 0 0;
+   LState 0 2;
+   LAttempt 0 1 0;
+   LState 0 3;
+   LEjecting 0 1 0;
+   LPulse 0;
+   SLeave 0 1;
+   LState 0 4;
+   LExtWait 0;
+   SNop;
+   LConfirmed 0 1;
+   LSuccess 0 1;
+   LCount 0 2;
+   LState 0 3;
+   LState 0 0;
+   SArrive 0 1;
+   LEnter 1 0;
+   LEntered 1 0;
+   LCount 1 1;
+   LState 1 2;
+   LAttempt 1 9 0;
+   LState 1 3;
+   LEjecting 1 9 0;
+   LPfReq 1;
+   LPulse 1;
+   SLeave 1 9;
+   LState 1 4;
+   LState 1 5;
+   LSuccess 1 9;
+   LPfAdded;
+   LPfReq (-1);
+   LCount 1 0;
+   LState 1 3;
+   LState 1 0;
+   LIncTimeout 1 0;
+   LIncLost 1 0;
+   LMissingToPf;
+   LMissingEv 1;
+   LSnap [[0;2;2;0;0];[1;0;0;0;0];[2;0;0;0;0]] [2;3;0;4]].
+
+Lemma witnessS_excess :
+  match init cfgS dsS pfS with
+  | Some x0 => match run_from cfgS x0 preS with
+               | Some m => (z m zXS =? 1) && (sumf (f m fA) (devs cfgS) + z m zPA =? z m zK + 1)
+                           && (sumf (f m fC) (devs cfgS) + z m zB =? z m zK)
+                           && (z m zQ =? 0) && (z m zW =? 0)
+               | None => false end
+  | None => false end = true.
+Proof. vm_compute. reflexivity. Qed.
+
+(* "the available balls sum to num_balls_known whenever no booking is pending" is FALSE of the faithful ledger *)
+Lemma available_sum_refuted_l :
+  exists c ds pf pre m,
+    NoDup (devs c) /\ reach c ds pf pre m /\ z m zQ = 0 /\ z m zW = 0 /\
+    sumf (f m fA) (devs c) + z m zPA = z m zK + 1 /\ sumf (f m fC) (devs c) + z m zB = z m zK.
+Proof.
+  exists cfgS, dsS, pfS, preS.
+  pose proof witnessS_excess as W.
+  destruct (init cfgS dsS pfS) as [x0|] eqn:Ei; [|discriminate].
+  destruct (run_from cfgS x0 preS) as [m|] eqn:Er; [|discriminate].
+  exists m.
+  apply andb_true_iff in W as [W W5]. apply andb_true_iff in W as [W W4].
+  apply andb_true_iff in W as [W W3]. apply andb_true_iff in W as [W1 W2].
+  apply Z.eqb_eq in W1, W2, W3, W4, W5.
+  assert (ND : NoDup (devs cfgS)) by (cbn; repeat constructor; cbn; intuition lia).
+  assert (R : reach cfgS dsS pfS preS m) by (exists x0; split; [exact Ei | exact Er]).
+  repeat split; assumption.
+Qed.
+
+Lemma available_excess_only_from_unrestored_loss_l :
+  forall c x l y,
+    step c x l = Some y -> z y zXS <> z x zXS ->
+    l = LMissingToPf /\ z x zW <= 0 /\
+    isdev c (z x zILT) = true /\ f x fA (z x zILT) <= 0 /\ z y zXS = z x zXS + 1.
+Proof.
+  intros c x l y H N. destruct (xs_only_from_unrestored_l c x l y H N) as [-> W].
+  destruct (unrestored_booking_guard_l c x y H W) as [A [B C]]. auto.
+Qed.
